@@ -407,6 +407,7 @@ type walker struct {
 	retSrc  []string
 	indexes map[string][]string // indexed expression text -> translated index terms (distinct)
 	skipped []string
+	skippedConds []string // text of the conditions that could not be translated (pinned as a shape fact)
 	captured map[string]val
 	fields  map[string]string
 	wantFields []string
@@ -649,6 +650,7 @@ func (w *walker) stmt(s ast.Stmt, guard string) {
 		e := w.try(func() { c = w.expr(x.Cond) })
 		if e != "" {
 			w.skipped = append(w.skipped, types.ExprString(x.Cond)+": "+e)
+			w.skippedConds = append(w.skippedConds, types.ExprString(x.Cond))
 			// still walk the bodies for nested conditions, but whatever they assign is unknown afterwards
 			saved := copyEnv(w.env)
 			w.stmts(x.Body.List, "")
@@ -701,6 +703,7 @@ func (w *walker) stmt(s ast.Stmt, guard string) {
 				w.conds = append(w.conds, cond{c.Lean, types.ExprString(x.Cond), "for"})
 			} else {
 				w.skipped = append(w.skipped, types.ExprString(x.Cond)+": "+e)
+				w.skippedConds = append(w.skippedConds, types.ExprString(x.Cond))
 			}
 		}
 		w.invalidateAssigned(x.Body)
@@ -858,6 +861,10 @@ func emitTarget(out *strings.Builder, ld *loaded, tg target, report *[]string) {
 	for _, s := range w.skipped {
 		fmt.Fprintf(out, "-- not translated: %s\n", strings.ReplaceAll(s, "\n", " "))
 	}
+	for i := range w.skippedConds {
+		w.skippedConds[i] = strings.Join(strings.Fields(w.skippedConds[i]), " ")
+	}
+	fmt.Fprintf(out, "/-- the conditions of this function that are outside the translated fragment, in source order -/\ndef untranslated : List String := %s\n", leanStrList(w.skippedConds))
 	for _, s := range w.notes {
 		fmt.Fprintf(out, "-- note: %s\n", s)
 	}
